@@ -43,8 +43,30 @@ func RaceMain(args []string) int {
 		}
 	} else {
 		r := NewRng(Mix(*seed, "C15race", *run))
-		sc, _ = genC15(r, "quick")
+		var alpha []Op
+		if *run%2 == 1 {
+			// broadside scenarios walk through {custom error page: failing, valid, none, missing} x {debug off, on}
+			k := *run / 2
+			c16Force = func(o *TreeOpts) {
+				o.ErrPage = []string{"failing", "valid", "", "missing"}[k%4]
+				o.Debug = (k/4)%2 == 1
+			}
+		}
+		sc, _, alpha = genC15Alpha(r, "quick")
+		c16Force = nil
 		sc.Seed, sc.Run = *seed, *run
+		if *run%2 == 1 && sc.Family != "cold" {
+			// broadside: every goroutine issues EVERY call of the alphabet, each starting at another
+			// one, a few times over; with no synchronisation between them the race detector then
+			// sees every pair of calls the alphabet can form
+			sc.Family = "broadside"
+			sc.Tasks = nil
+			for g := 0; g < *goroutines; g++ {
+				k := (g * len(alpha)) / *goroutines
+				sc.Tasks = append(sc.Tasks, append(append([]Op{}, alpha[k:]...), alpha[:k]...))
+			}
+			*reps = 3
+		}
 		// more tasks than the simulator uses: real threads are cheap
 		for len(sc.Tasks) < *goroutines {
 			sc.Tasks = append(sc.Tasks, sc.Tasks[r.Intn(len(sc.Tasks))])
